@@ -22,13 +22,15 @@ class Case:
     ops: list = dfield(default_factory=list)     # ("parse", data, pos) | ("dump", data, pos) | ("layout",)
     tag: str = ""
     history: list = dfield(default_factory=list)  # extra steps after loading `text`:
-    #   ("load", text) | ("array", type name, n) | ("add_field", type name, field name, field type name, bits)
+    #   ("load", text) | ("load_align", text, align) | ("array", type name, n) | ("add_field", type name, field name, field type name, bits)
 
     def load(self):
         cs = structs.load(self.text, endian=self.endian, pointer=self.pointer, compiled=self.compiled, align=self.align)
         for h in self.history:
             if h[0] == "load":
                 cs.load(h[1], compiled=self.compiled, align=self.align)
+            elif h[0] == "load_align":      # a further definition loaded with its own alignment mode (mixed modes on one cstruct object)
+                cs.load(h[1], compiled=self.compiled, align=h[2])
             elif h[0] == "array":
                 _ = cs.resolve(h[1])[h[2]]
             elif h[0] == "set_pointer":
